@@ -8,11 +8,12 @@ WT=$(mktemp -d /tmp/seedconf-XXXXXX); rmdir "$WT"
 git -C /repo worktree add -q --detach "$WT" HEAD || exit 3
 trap 'git -C /repo worktree remove --force "$WT" >/dev/null 2>&1; rm -rf "$WT"; git -C /repo worktree prune' EXIT
 export GOFLAGS=-mod=mod GOPROXY=off
+TP=-trimpath; [ "${NO_TRIMPATH:-0}" = 1 ] && TP=""
 cd "$WT/go"
 git -C "$WT" apply "$SD/patch.diff" || { echo "APPLY-FAILED"; exit 3; }
-go build -trimpath $PKGS ./$PKG/ >/dev/null 2>&1 && echo "build-with-patch: ok" || echo "build-with-patch: FAILED"
-go test -trimpath -vet=off -count=1 -timeout 90m -skip "TestFileManifestUpdate|TestFindPrefix|TestPullTableFileWriter|TestGitRemoteFactory_TwoClients|TestSignAndVerifyCommit" $PKGS 2>&1 | grep -v "no test files" | tail -8; echo "existing-tests-with-patch rc=${PIPESTATUS[0]}"
+go build $TP $PKGS ./$PKG/ >/dev/null 2>&1 && echo "build-with-patch: ok" || echo "build-with-patch: FAILED"
+go test $TP -vet=off -count=1 -timeout 90m -skip "TestFileManifestUpdate|TestFindPrefix|TestPullTableFileWriter|TestGitRemoteFactory_TwoClients|TestSignAndVerifyCommit" $PKGS 2>&1 | grep -v "no test files" | tail -8; echo "existing-tests-with-patch rc=${PIPESTATUS[0]}"
 for f in "$SD"/demo*_test.go; do cp "$f" "$PKG/zz_$(basename $f)"; done
-go test -trimpath -vet=off -count=1 -run "$RX" ./$PKG/ >/tmp/seedconf.$$ 2>&1; echo "demo-with-patch rc=$? (expect non-zero)"; tail -3 /tmp/seedconf.$$
+go test $TP -vet=off -count=1 -run "$RX" ./$PKG/ >/tmp/seedconf.$$ 2>&1; echo "demo-with-patch rc=$? (expect non-zero)"; tail -3 /tmp/seedconf.$$
 git -C "$WT" apply -R "$SD/patch.diff"
-go test -trimpath -vet=off -count=1 -run "$RX" ./$PKG/ >/tmp/seedconf.$$ 2>&1; echo "demo-without-patch rc=$? (expect 0)"; tail -2 /tmp/seedconf.$$; rm -f /tmp/seedconf.$$
+go test $TP -vet=off -count=1 -run "$RX" ./$PKG/ >/tmp/seedconf.$$ 2>&1; echo "demo-without-patch rc=$? (expect 0)"; tail -2 /tmp/seedconf.$$; rm -f /tmp/seedconf.$$
